@@ -9,6 +9,8 @@ import (
 	"math/rand"
 	"os"
 	"runtime"
+	"sync"
+	"sync/atomic"
 	"time"
 
 	"github.com/jamf/regatta/regattapb"
@@ -189,6 +191,77 @@ func queueRun(tr *tracer.T, steps []qStep, nw int) bool {
 	return wedged
 }
 
+// queueFirstAdd : the very first Add for a table while other goroutines ask for that table's length (the replication
+// worker polls Len for its statistics) - per round a fresh queue and 22 tables that the queue has never seen; every
+// waiter must be answered by the Notify that follows. Real concurrency: explored by repetition.
+func queueFirstAdd(tr *tracer.T, rounds int) {
+	const nt = 22
+	for r := 0; r < rounds; r++ {
+		tr.Emit(map[string]any{"ev": "reset"})
+		sweepC := make(chan time.Time)
+		storage.VerifSweepC = func() <-chan time.Time { return sweepC }
+		q := storage.NewNotificationQueue()
+		go q.Run()
+		chans := make([]<-chan error, nt)
+		cancels := make([]context.CancelFunc, nt)
+		for w := 0; w < nt; w++ {
+			table := fmt.Sprintf("f%d", w+1)
+			var stop atomic.Bool
+			var wg sync.WaitGroup
+			start := make(chan struct{})
+			for g := 0; g < 3; g++ {
+				wg.Add(1)
+				go func() {
+					defer wg.Done()
+					<-start
+					for !stop.Load() {
+						q.Len(table)
+					}
+				}()
+			}
+			ctx, cancel := context.WithCancel(context.Background())
+			cancels[w] = cancel
+			close(start)
+			if w%2 == 1 {
+				runtime.Gosched()
+			}
+			chans[w] = q.Add(ctx, table, 1)
+			stop.Store(true)
+			wg.Wait()
+			tr.Emit(map[string]any{"ev": "add", "w": w + 1, "t": table, "r": 1})
+		}
+		for w := 0; w < nt; w++ {
+			q.Notify(fmt.Sprintf("f%d", w+1), 1)
+			tr.Emit(map[string]any{"ev": "notify", "t": fmt.Sprintf("f%d", w+1), "r": 1})
+		}
+		avail := make([]int, nt)
+		deadline := time.Now().Add(500 * time.Millisecond)
+		for w := 0; w < nt; w++ {
+			for {
+				closed := false
+				select {
+				case _, open := <-chans[w]:
+					closed = !open
+				default:
+				}
+				if closed {
+					avail[w] = 2
+					break
+				}
+				if time.Now().After(deadline) {
+					break
+				}
+				time.Sleep(50 * time.Microsecond)
+			}
+		}
+		tr.Emit(map[string]any{"ev": "obs", "wedged": false, "avail": avail})
+		for _, c := range cancels {
+			c()
+		}
+		q.Close()
+	}
+}
+
 // queueRandom : long random schedules with many waiters and revisions (Go side; TLC validates)
 func queueRandomSteps(rng *rand.Rand, nw, n int) []qStep {
 	var steps []qStep
@@ -305,6 +378,7 @@ func init() {
 		in := fs.String("in", "", "TLC-generated behaviours")
 		seed := fs.Int64("seed", 1, "seed")
 		nrand := fs.Int("n", 0, "random behaviours (mode without --in)")
+		firstadd := fs.Int("firstadd", 0, "rounds per behaviour of the first-Add-against-Len race (instead of random schedules)")
 		_ = fs.Parse(args)
 		tr, err := tracer.New(*out)
 		if err != nil {
@@ -317,7 +391,9 @@ func init() {
 				}
 				rng := rand.New(rand.NewSource(*seed*4409 + int64(b)))
 				start := tr.Lines() + 1
-				if b%10 == 9 {
+				if *firstadd > 0 {
+					queueFirstAdd(tr, *firstadd)
+				} else if b%10 == 9 {
 					queueForward(tr, rng)
 				} else {
 					queueRun(tr, queueRandomSteps(rng, 20, 60), 24)
